@@ -20,6 +20,7 @@ CONSTANTS Proc,          \* command processes
           MaxTime, MaxPacks, MaxCmds,
           Concurrent,    \* FALSE: at most one command runs at a time
           AllowInstant,  \* prune may run with instant-delete
+          AllowCrash,    \* a running command may stop between any two of its steps
           AllowEarly,    \* ... and with early-delete-index (documented as unsafe, excluded by C03)
           TickInPrune,   \* FALSE: assumption A2 - no time passes while a prune runs
           UntypedDedup   \* TRUE: model the dedup sets as sets of ids (not typed blobs)
@@ -240,6 +241,7 @@ PRmPack(p) ==
 
 -----------------------------------------------------------------------------
 Crash(p) ==
+  /\ AllowCrash
   /\ loc[p].pc # "idle"
   /\ loc' = [loc EXCEPT ![p] = Idle]
   /\ hist' = Append(hist, <<"crash", loc[p].pc>>)
